@@ -4,6 +4,7 @@
 import ElfVerif.Lemmas.Hash
 import ElfVerif.Lemmas.SysVHash
 import ElfVerif.Lemmas.SysVComplete
+import ElfVerif.Lemmas.SysVBuild
 namespace Elf.C12
 
 /-- **Soundness, for any table bytes**: if a lookup returns `(i, sym)` then `sym` is the symbol
@@ -141,5 +142,45 @@ theorem exWF : WFSysV exT exSym exStr := by
   exact SysVChain.cons 1 _ _ 0 [] (by decide) (by decide) (by decide) (by decide) SysVChain.nil
 example : (exT.find (Slice.ofArray #[97]) exSym exStr).isOk = true := by decide
 example : elfHash (Slice.ofArray #[97]) = 97 := by decide
+
+/-! ## Tables laid out by the standard construction -/
+
+/-- **Any table laid out by the standard construction is well-formed** (symbols 1…n inserted at the
+    head of the chain of bucket `elf_hash(name) mod nbucket`, `nchain = n + 1`): so the hypotheses
+    of `find_wf`/`find_complete`/`find_absent` are met by every linker-style table, for every
+    number of symbols and buckets and every set of names. -/
+theorem built_table_wf {t : SysVHashTable} {symtab : Table Symbol} {strtab : Slice} {n : Nat}
+    {sym : Nat → Symbol} {w : Nat → Slice} (hd : SysVBuild.Decodes t symtab strtab n sym w) :
+    WFSysV t symtab strtab := SysVBuild.wf hd
+
+/-- **The lookup finds every symbol by name** in such a table: querying the bytes of symbol `i`'s
+    name returns a symbol of the table whose name has exactly those bytes. -/
+theorem built_table_finds_every_symbol {t : SysVHashTable} {symtab : Table Symbol} {strtab : Slice} {n : Nat}
+    {sym : Nat → Symbol} {w : Nat → Slice} (hd : SysVBuild.Decodes t symtab strtab n sym w)
+    (i : Nat) (hi0 : i ≠ 0) (hin : i ≤ n) (name : Slice) (hname : (w i).beqBytes name = true) :
+    ∃ j s, t.find name symtab strtab = .ok (some (j, s)) ∧
+      ∃ w', symtab.get j = .ok s ∧ strGetRaw strtab s.st_name = .ok w' ∧ w'.beqBytes name = true :=
+  SysVBuild.finds_every_symbol hd i hi0 hin name hname
+
+/-- **…and returns `None` for every name none of the n symbols carries.** -/
+theorem built_table_absent {t : SysVHashTable} {symtab : Table Symbol} {strtab : Slice} {n : Nat}
+    {sym : Nat → Symbol} {w : Nat → Slice} (hd : SysVBuild.Decodes t symtab strtab n sym w)
+    (name : Slice) (habs : ∀ j, j ≠ 0 → j ≤ n → (w j).beqBytes name = false) :
+    t.find name symtab strtab = .ok none := SysVBuild.absent_is_none hd name habs
+
+/- Non-vacuity: the example table is the construction's output for one symbol named "a". -/
+theorem exDecodes : SysVBuild.Decodes exT exSym exStr 1 (fun _ => ⟨1,1,0x12,0,0,0⟩) (fun _ => ⟨exStr.buf, 1, 2⟩) := by
+  refine ⟨by decide, by decide, ?_, ?_, ?_⟩
+  · intro j h0 h1
+    have : j = 1 := by omega
+    subst this; exact ⟨by decide, by decide⟩
+  · intro b hb
+    have hb0 : b = 0 := by
+      have : exT.buckets.len = 1 := by decide
+      omega
+    subst hb0; decide
+  · intro j hj
+    have : j = 0 ∨ j = 1 := by omega
+    rcases this with h | h <;> subst h <;> decide
 
 end Elf.C12
